@@ -371,6 +371,7 @@ struct ConnLedger {
     /// a period was opened in the current processing step (at this instant)
     rec_opened_now: Option<u64>,
     recovery_start_b: Option<u64>,
+    retry_seen: bool,
     /// largest ECN-CE count reported to this endpoint so far (per space) / a higher one arrived in this processing step
     ce_seen: HashMap<Space, u64>,
     ce_signal: bool,
@@ -406,6 +407,7 @@ pub struct RecoverySummary {
     pub losses_inside_recovery: usize,
     pub over_window_sends: usize,
     pub ce_signals: usize,
+    pub retries: usize,
 }
 
 impl ConnLedger {
@@ -430,8 +432,31 @@ pub fn check_recovery(sc: &Scenario, out: &Outcome, opts: &RecoveryOpts, obs: &m
     let _ = sc;
     let mut sum = RecoverySummary::default();
     let mut conns: HashMap<(usize, u64), ConnLedger> = HashMap::new();
+    // datagrams that carry a Retry packet (by hash): a client that accepts one discards what it sent so far in the Initial
+    // space (RFC 9002 6.2.? / A.? "OnRetryReceived": the packets are removed from bytes in flight without being lost)
+    let retry_hashes: std::collections::HashSet<u64> = out
+        .net
+        .iter()
+        .filter(|n| crate::wire::parse_datagram(&n.payload, 16).iter().any(|h| h.ty == crate::wire::PktType::Retry && h.version == 1))
+        .map(|n| n.hash)
+        .collect();
     for r in &out.recs {
         if r.conn == u64::MAX {
+            if let Ev::RxDatagram { hash, .. } = &r.ev {
+                if r.ep > 0 && retry_hashes.contains(hash) {
+                    // (a client endpoint of this harness has exactly one connection; a second or late Retry is ignored by
+                    // the client and finds nothing outstanding here either way only if it was accepted: only the first counts)
+                    for ((ep, _), c) in conns.iter_mut() {
+                        if *ep == r.ep && !c.retry_seen {
+                            c.retry_seen = true;
+                            sum.retries += 1;
+                            if let Some(sp) = c.spaces.get_mut(&Space::Initial) {
+                                sp.outstanding.clear();
+                            }
+                        }
+                    }
+                }
+            }
             continue;
         }
         let key = (r.ep, r.conn);
